@@ -149,7 +149,9 @@ class Obj:
                 self.x = torch.randn(self.c, 2, 1, 1)
             self.top = self.q
         else:
-            key = ('sn', self.n, bool(g), bool(spec.get('fresh')))
+            calls = int(spec.get('calls', 1))          # how many times the SuperNetModule is applied per forward pass
+            self.calls = calls
+            key = ('sn', self.n, bool(g), bool(spec.get('fresh')), calls)
             if spec.get('fresh') or key not in _CACHE:
                 import torch.nn as nn
                 from plinio.methods import SuperNet
@@ -163,8 +165,12 @@ class Obj:
                         s.l = nn.Conv2d(3, 2, 1)
 
                     def forward(s, x):
-                        return s.l(s.b(x))
-                sn = SuperNet(SN(), input_shape=(3, 8, 8))
+                        for _ in range(calls):
+                            x = s.b(x)
+                        return s.l(x)
+                net = SN()
+                sn = SuperNet(net, input_shape=(3, 8, 8))
+                sn._c10_net = net
                 if not spec.get('fresh'):
                     _CACHE[key] = sn
             else:
@@ -227,8 +233,9 @@ class Obj:
             al = self.q.alpha.detach()
             Timpl = self.q.temperature.item() if self.kind != 'comb' else self.q.softmax_temperature
             torch.manual_seed(seed)
-            noise = -torch.empty_like(al).exponential_().log()
             uses_noise = self.q.sample_alpha.__name__ == 'sample_alpha_gs' and self.q.training
+            for _ in range(getattr(self, 'calls', 1) if uses_noise else 1):
+                noise = -torch.empty_like(al).exponential_().log()
             Tq = frac(Timpl)
             flat = (lambda t: (t.t() if t.dim() == 2 else t).flatten().tolist())
             z = al / Timpl
@@ -362,6 +369,18 @@ def exec_case(spec):
                     res['fails'].append(('supernet:summary-differs-from-export' + tag, 'summary() reports branch %d (kernel %d) as the largest, export() kept kernel sizes %r' % (res['summary_best'], KSIZES[res['summary_best']], ks), len(spec['ops'])))
                 if ks != [KSIZES[best]] or res['best'] != best:
                     res['fails'].append(('supernet:export-is-not-argmax-alpha' + tag, 'export() kept kernel sizes %r and best_layer_index() = %d; argmax(alpha) = %d has kernel %d' % (ks, res['best'], best, KSIZES[best]), len(spec['ops'])))
+                net = getattr(o.top, '_c10_net', None)
+                if net is not None:
+                    import torch
+                    with torch.no_grad():
+                        ref = o.x
+                        for _ in range(o.calls):
+                            ref = net.b.sn_branches[best](ref)
+                        ref = net.l(ref)
+                        got = e(o.x)
+                    if got.shape != ref.shape or not torch.allclose(got, ref, atol=1e-5):
+                        res['fails'].append(('supernet:exported-network-is-not-the-argmax-branch' + tag, 'export() does not compute the network made of the arg-max branch %d (applied %d time(s)): max abs difference %s; modules kept: %r' % (
+                            best, o.calls, 'shape' if got.shape != ref.shape else '%.4g' % float((got - ref).abs().max()), sorted({type(m).__name__ for m in e.modules()})), len(spec['ops'])))
                 if ev is not None and ev != best:
                     res['fails'].append(('supernet:evaluated-onehot-differs-from-export', 'evaluated one-hot at %d, exported %d' % (ev, best), len(spec['ops'])))
             except Exception as ex:
@@ -449,6 +468,13 @@ def specs_config(ctx):
             n = rng.randint(2, 8)
             out.append({'fam': 'config', 'kind': 'comb', 'n': n, 'c': 1, 'ctor': (1.0, h, g, False), 'alpha': gen_alpha(rng, n, 1), 'mode': 'train' if tr else 'eval',
                         'ops': [('upd', T, None, None, None), ('fwd', rng.randrange(1 << 30), 'grad')], 'export': rng.random() < 0.4, 'fresh': True})
+    # a SuperNetModule applied more than once per forward pass (same resolution), then summary()/export()
+    for T in TEMPS:
+        for h, g, tr in itertools.product((False, True), repeat=3):
+            n = rng.randint(2, 8)
+            out.append({'fam': 'multi-call', 'kind': 'comb', 'n': n, 'c': 1, 'calls': rng.choice([2, 2, 3]), 'ctor': (T, h, g, False), 'alpha': gen_alpha(rng, n, 1),
+                        'mode': 'train' if tr else 'eval', 'ops': [('fwd', rng.randrange(1 << 30), rng.choice(GRAD_MODES[:2]))] + ([('opt', gen_alpha(rng, n, 1), rng.choice(ROUTES))] if rng.random() < 0.4 else []),
+                        'export': True, 'fresh': True})
     # forward, then alpha := alpha' with the arg-max moved, then summary()/export() with NO forward in between
     for T in TEMPS:
         for h, g, tr in itertools.product((False, True), repeat=3):
@@ -970,8 +996,8 @@ def run(ctx):
                     mism.append(('net-' + m_[0], r['spec'], m_[1:]))
             # whole models: one sampling call per selector + the selection
             sexprs, smeta = [], []
-            for r in mres:
-                for s in r['samples']:
+            for r in mres + nres:
+                for s in r.get('samples', []):
                     sexprs.append('run_sample true KMps %s %s %s [] %s' % (coq(q_tab(s['tab'])), coq(TOL), coq(q_sampler(s['state'])), coq(c30(s['theta']))))
                     smeta.append((r['spec'], s['q']))
             svals = ctx.coq_eval_sharded('msamples', ['Plinio.Model.Sampler'], '', sexprs, shard=250) if sexprs else []
